@@ -122,10 +122,12 @@ def lib_histories():
     H.append(("sb2-sessions", dict(sb=2, ops=[
         {"op": "mkds", "path": "/r", "dtype": "int32", "dims": [4], "chunk": [2], "maxdims": [16]},
         {"op": "write", "path": "/r", "val": i32(1, 2, 3, 4)},
-        {"op": "close"}, {"op": "reopen"},
         {"op": "resize", "path": "/r", "dims": [6]},
-        attr("/r", "later", "i32", i32(1)),
-        {"op": "mkgroup", "path": "/g2"}])))
+        {"op": "mkds", "path": "/k", "dtype": "float64", "dims": [2]},
+        {"op": "write", "path": "/k", "val": f64(0.5, -0.5)},
+        {"op": "close"}, {"op": "reopen"},
+        attr("/k", "later", "i32", i32(1)),
+        {"op": "write", "path": "/k", "val": f64(1.5, 2.5)}])))
     return H
 
 
@@ -147,7 +149,23 @@ def make_lib_files(H, workdir):
         if bad:
             notes.append("%s: ops %s refused by the library (%s)" % (tag, bad[:4], r["results"][bad[0]].get("err", "")[:80]))
         out.append((tag, p, c))
+    # 13: variable-length data through the global heap (written by the c12 harness through the public API)
+    vcase = vlen_case(workdir)
+    try:
+        r = vlib.run_harness(H, "c12", [vcase])[0]
+        if r.get("path") and os.path.exists(r["path"]) and not r.get("write_errs") and not r.get("close_err"):
+            out.append(("sb2-vlen", r["path"], dict(c12=vcase)))
+        else:
+            notes.append("sb2-vlen: not usable (%s)" % str({k: r.get(k) for k in ("create_err", "write_errs", "close_err")})[:160])
+    except Exception as e:
+        notes.append("sb2-vlen: c12 harness failed (%s)" % str(e)[:120])
     return out, notes
+
+
+def vlen_case(workdir):
+    return dict(dir=workdir, sbver=2, keep=True, dump_gcol=False, datasets=[
+        dict(name="vs", base="string", chunk=0, elems=[hx("alpha"), hx(""), hx("a longer string value"), hx("z")]),
+        dict(name="vi", base="int32", chunk=2, elems=[i32(1, 2, 3), i32(), i32(-7), i32(4, 5), i32(6)])])
 
 
 # ----------------------------------------------------------------------------- reference files
@@ -473,7 +491,7 @@ def strace_read_sweep(ctx, files, baselines, viol, cov, budget_total):
 def write_sweep(ctx, lib, workdir, viol, cov, budget_total):
     """K-th pwrite64 / fsync / ftruncate / close on the target file fails while a write history runs"""
     H = ctx.harness
-    cases = {tag: c for tag, _, c in lib}
+    cases = {tag: c for tag, _, c in lib if "c12" not in c}
     per = {}
     jobs = []
     tags = [t for t in WRITE_HISTORIES if t in cases]
@@ -634,7 +652,7 @@ def writer_shape_tie(ctx, lib, workdir, viol, cov):
         cov["writer_shape"] = "Model/IOProgWriter.v not present"
         return 0
     H = ctx.harness
-    cases = {tag: c for tag, _, c in lib}
+    cases = {tag: c for tag, _, c in lib if "c12" not in c}
     rows, skipped = [], collections.Counter()
     for tag in [t for t in WRITE_HISTORIES if t in cases]:
         case = {k: v for k, v in cases[tag].items() if k not in ("dir", "keep")}
@@ -778,7 +796,7 @@ def parser_tie(ctx, lib, viol, cov, repaired=True, workdir=None, crafted=()):
                 stats["%s:%s" % (op, ("ok", "err", "panic")[r["class"]])] += 1
                 if r["class"] == 2 or (r["class"] == 0 and (intact["class"] != 0 or r.get("v") != intact.get("v"))):
                     viol.append(dict(what="%s: parser %s@%d cut=%d fault=%d/kind%d returns %s" % (tag, op, addr, cut, k, code, ("a different value", "", "a panic")[r["class"]]),
-                                     failing_input=dict(kind="parser", file=path, origin=(dict(history=_) if _ else dict(reference=os.path.relpath(path, vlib.REPO))), op=op, addr=addr, cut=cut, fault=k, fault_code=code),
+                                     failing_input=dict(kind="parser", file=path, origin=((dict(c12=_["c12"]) if "c12" in _ else dict(history=_)) if _ else dict(reference=os.path.relpath(path, vlib.REPO))), op=op, addr=addr, cut=cut, fault=k, fault_code=code),
                                      intact=intact, observed=r))
             name = "cs_%d_%d" % (fi, ti)
             vparts.append("Definition v_%s : val := %s.\n" % (name, coq_val(intact.get("v")) if intact["class"] == 0 else "VL []"))
@@ -872,7 +890,7 @@ def run(ctx):
     workdir = os.path.join(vlib.scratch(), "c17")
     os.makedirs(workdir, exist_ok=True)
     lib, notes = make_lib_files(H, workdir)
-    files = [(tag, p, dict(history=c)) for tag, p, c in lib]
+    files = [(tag, p, (dict(c12=c["c12"]) if "c12" in c else dict(history=c))) for tag, p, c in lib]
     refs = pick_reference(ctx.tier)
     td = os.path.join(vlib.REPO, "testdata")
     for p in refs:
@@ -976,7 +994,9 @@ def replay(ctx, path):
     os.makedirs(work, exist_ok=True)
     fpath = fi.get("file")
     origin = fi.get("origin") or {}
-    if origin.get("history") or (fpath and not os.path.exists(fpath) and fi.get("history")):
+    if origin.get("c12"):
+        fpath = vlib.run_harness(H, "c12", [dict(origin["c12"], dir=work)])[0].get("path")
+    elif origin.get("history") or (fpath and not os.path.exists(fpath) and fi.get("history")):
         case = dict(origin.get("history") or fi.get("history"), dir=work, keep=True)
         fpath = vlib.run_harness(H, "hist", [case])[0].get("file")
     elif origin.get("reference"):
